@@ -217,7 +217,7 @@ def match_finding(findings, prop, ob_name, res: Result):
 
 def write_replay(prop, ob: Obligation, res: Result):
     REPLAYS.mkdir(exist_ok=True)
-    path = REPLAYS / f"{ob.name}.json"
+    path = REPLAYS / (ob.name.replace("/", "_over_") + ".json")
     path.write_text(json.dumps(dict(
         property=prop, obligation=ob.name, engine=ob.engine, functions=ob.functions, doc=ob.doc,
         verdict=res.verdict, witness=res.witness, replayed=res.replayed, replay_info=res.replay_info,
